@@ -137,6 +137,14 @@ func verifyRawCerts(rawCerts [][]byte, certHashes []multihash.DecodedMultihash) 
 	case x509.SHA1WithRSA, x509.SHA256WithRSA, x509.SHA384WithRSA, x509.SHA512WithRSA, x509.MD2WithRSA, x509.MD5WithRSA:
 		return errors.New("cert uses RSA")
 	}
+	// An RSA key may also be signed with RSA-PSS or certified by a non-RSA issuer.
+	switch cert.SignatureAlgorithm {
+	case x509.SHA256WithRSAPSS, x509.SHA384WithRSAPSS, x509.SHA512WithRSAPSS:
+		return errors.New("cert uses RSA")
+	}
+	if cert.PublicKeyAlgorithm == x509.RSA {
+		return errors.New("cert uses RSA")
+	}
 	if l := cert.NotAfter.Sub(cert.NotBefore); l > 14*24*time.Hour {
 		return fmt.Errorf("cert must not be valid for longer than 14 days (NotBefore: %s, NotAfter: %s, Length: %s)", cert.NotBefore, cert.NotAfter, l)
 	}
